@@ -10,7 +10,34 @@ from lib.report import REPO, VENV_PY, VERIF
 _memo = {}
 
 
+def _replay_getter(rep, r):
+    if "getter_out" not in _memo:
+        env = dict(os.environ, PYTHONPATH=os.path.join(REPO, "src") + os.pathsep + VERIF)
+        p = subprocess.run([VENV_PY, os.path.join(VERIF, "runtime", "c06_getter_replay.py")], capture_output=True, text=True, env=env, timeout=300)
+        lines = [l for l in p.stdout.splitlines() if l.startswith("{")]
+        _memo["getter_out"] = json.loads(lines[-1]) if lines else dict(confirmed=False, note=p.stderr[-300:])
+    out = _memo["getter_out"]
+    path = rep.write_replay(r.name, dict(obligation=r.to_json(), solver_output=r.model, confirmed=out.get("confirmed", False), replay=out))
+    return path, out.get("confirmed", False), out
+
+
+def _replay_seed(rep, r):
+    kind = r.meta.get("grad", "array")
+    if ("seed", kind) not in _memo:
+        env = dict(os.environ, PYTHONPATH=os.path.join(REPO, "src") + os.pathsep + VERIF)
+        p = subprocess.run([VENV_PY, os.path.join(VERIF, "runtime", "c06_seed_replay.py"), kind], capture_output=True, text=True, env=env, timeout=300)
+        lines = [l for l in p.stdout.splitlines() if l.startswith("{")]
+        _memo[("seed", kind)] = json.loads(lines[-1]) if lines else dict(confirmed=False, note=p.stderr[-300:])
+    out = _memo[("seed", kind)]
+    path = rep.write_replay(r.name, dict(obligation=r.to_json(), solver_output=r.model, confirmed=out.get("confirmed", False), replay=out))
+    return path, out.get("confirmed", False), out
+
+
 def _replay(rep, r):
+    if r.name.startswith("C06.getter"):
+        return _replay_getter(rep, r)
+    if r.name.startswith("C14.seed"):
+        return _replay_seed(rep, r)
     if "I1prime.layout" not in r.name:
         return None, False, None
     if "out" not in _memo:
@@ -27,7 +54,7 @@ def _replay(rep, r):
 def run(tier, seed):
     return run_property(
         "C06", tier, seed, level="other",
-        deductive=[("c01_step", r"C06\.I1prime\.layout|C12\.OWNG\.(distinct|owner)")],
+        deductive=[("c01_step", r"C06\.I1prime\.layout|C12\.OWNG\.(distinct|owner)"), ("c06_getter", None), ("c07_clear", r"C06\.pull"), ("c14_seed", r"\.C06\.layout")],
         bounded=[("graph_bounded.py", ["--check", "C06"])],
         replay=_replay,
         trusted=[
@@ -37,7 +64,9 @@ def run(tier, seed):
         ],
         assumptions=[
             "I1' (stored gradient has the memory layout of the tensor's data) is proved for Operation.backward, the generic writer of _grad; "
-            "the getter Tensor.grad and clear_graph's pull-before-clear are covered by the bounded contract only (not yet under PyVC)",
+            "the getter Tensor.grad is under contract (contracts/c06_getter.py: the result is None or a window onto the base's *current* gradient; recursion along the view chain by the getter's own contract; "
+            "preconditions: a view's creator has one input whose base is the view's base (C04.base of Tensor._op), the base's gradient owns its memory (C12.OWNG)); "
+            "clear_graph pulls the gradient before clearing (C06.pull); that a replayed view-op yields a view is the axiom above",
             "arrays are compact (fill their memory block) for tensors that own NumPy-allocated memory; layout ids are abstract",
             "bounded part: chains over 8 view ops, C/F base order, which member contributes first",
         ],
